@@ -645,6 +645,48 @@ func init() {
 		}
 		return mkStr(out)
 	}
+	ext["strings.EqualFold"] = func(fr *frame, a []value) value {
+		i := fr.i
+		if x, ok := a[0].(string); ok {
+			if y, ok := a[1].(string); ok {
+				return strings.EqualFold(x, y)
+			}
+		}
+		xb, yb := strBytes(a[0]), strBytes(a[1])
+		// ASCII model: every symbolic byte must be < 0x80 (otherwise unsupported); concrete non-ASCII too
+		ascii := func(bs []value) {
+			for _, b := range bs {
+				switch b := b.(type) {
+				case int64:
+					if b >= 0x80 {
+						i.unsupported("strings.EqualFold with non-ASCII text and a symbolic operand")
+					}
+				case *Term:
+					if i.decide(i.ts.Cmp(OpBVUle, i.ts.Const(0x80, 8), b)) {
+						i.unsupported("strings.EqualFold on a non-ASCII symbolic byte")
+					}
+				}
+			}
+		}
+		ascii(xb)
+		ascii(yb)
+		if len(xb) != len(yb) {
+			return false
+		}
+		fold := func(v value) *Term {
+			t := i.toTerm(v, 8)
+			up := i.ts.And(i.ts.Cmp(OpBVUle, i.ts.Const('A', 8), t), i.ts.Cmp(OpBVUle, t, i.ts.Const('Z', 8)))
+			return i.ts.Ite(up, i.ts.BV(OpBVAdd, t, i.ts.Const(32, 8)), t)
+		}
+		acc := i.ts.tt
+		for k := range xb {
+			acc = i.ts.And(acc, i.ts.Eq(fold(xb[k]), fold(yb[k])))
+			if acc.IsFalse() {
+				return false
+			}
+		}
+		return fromTerm(acc, false)
+	}
 	ext["strings.Repeat"] = func(fr *frame, a []value) value {
 		return strings.Repeat(fr.i.cstr(a[0], "strings.Repeat"), fr.i.cint(a[1], "count"))
 	}
